@@ -589,6 +589,9 @@ func (pe *PolicyEngine) deleteAdminNetworkPolicy(anp *apisv1a.AdminNetworkPolicy
 }
 
 func (pe *PolicyEngine) deleteBaselineAdminNetworkPolicy(banp *apisv1a.BaselineAdminNetworkPolicy) error {
+	if pe.baselineAdminNetpol == nil { // no baseline-admin-network-policy in the policy-engine
+		return nil
+	}
 	if pe.baselineAdminNetpol.Name == banp.Name { // if this is the banp used in pe delete it
 		// @TBD : should keep this if? no other banps are in the resources (illegal)
 		pe.baselineAdminNetpol = nil
